@@ -79,14 +79,6 @@ theorem Step.coarse {z : Z} {r : Token × Z} (h : Step z r) :
     rcases List.mem_append.mp hm with hm | hm
     · exact nosp sp hsp hm
     · exact hpre hm
-  | punct sp c hsp hc hafter hbefore hline hty hval hpos hstop =>
-    refine ⟨sp ++ [c], by simp [hafter], by simp [hbefore], Or.inl ⟨?_, hline, ?_⟩⟩
-    · intro hm
-      rcases List.mem_append.mp hm with hm | hm
-      · exact nosp sp hsp hm
-      · simp at hm; exact hc hm.symm
-    · intro e
-      simp [HL.Spec.LexSpec.isPunct, e] at hty
   | newline sp hsp hafter hbefore hline hcol hstart hty hpl hpo hstop =>
     exact ⟨sp ++ [LF], by simp [hafter], by simp [hbefore],
       Or.inr ⟨sp, rfl, nosp sp hsp, hline, hcol, hstart, hty⟩⟩
